@@ -10,9 +10,11 @@ package hsrv
 
 import (
 	"errors"
+	"io"
 	"log/slog"
 	"net/http"
 	"os"
+	"sync/atomic"
 	"testing"
 	"time"
 )
@@ -110,7 +112,6 @@ func (s *Server) outputHandler(w http.ResponseWriter, r *http.Request) {
 		r.Body,
 		r.PathValue(idParam),
 	)
-	s.abandonRequestBody(w, r)
 }
 
 // inOutHandler handles both input and output for a shell.
@@ -139,7 +140,41 @@ func (s *Server) inOutHandler(w http.ResponseWriter, r *http.Request) {
 		w,
 		r.Body,
 	)
-	s.abandonRequestBody(w, r)
+}
+
+// bodyNoter notes whether its underlying request body has been read to its
+// end (or to an error).
+type bodyNoter struct {
+	io.ReadCloser
+	ended atomic.Bool
+}
+
+// Read wraps b's ReadCloser's Read, noting if it returned an error.
+func (b *bodyNoter) Read(p []byte) (int, error) {
+	n, err := b.ReadCloser.Read(p)
+	if nil != err {
+		b.ended.Store(true)
+	}
+	return n, err
+}
+
+// abandonUnreadBodies wraps h such that, when h is done with a request, the
+// rest of the request's body isn't waited for, no matter whether h wanted a
+// body in the first place.
+func (s *Server) abandonUnreadBodies(h http.Handler) http.Handler {
+	return http.HandlerFunc(func(w http.ResponseWriter, r *http.Request) {
+		/* No body, no problem. */
+		if 0 == r.ContentLength {
+			h.ServeHTTP(w, r)
+			return
+		}
+		bn := &bodyNoter{ReadCloser: r.Body}
+		r.Body = bn
+		h.ServeHTTP(w, r)
+		if !bn.ended.Load() {
+			s.abandonRequestBody(w, r)
+		}
+	})
 }
 
 // abandonRequestBody makes sure the HTTP library doesn't wait for the rest of
